@@ -49,6 +49,27 @@ theorem propagate_order_irrelevant (path : List Elem) (lo hi : Option Int) (d : 
     (hp : l₁.Perm l₂) (hs : Pos l₁) : propagate path lo hi d l₁ = propagate path lo hi d l₂ := by
   simp only [propagate, mk_order_irrelevant' l₁ l₂ hp hs]
 
+/-- **a uniform grid is always a valid spectrum** (spacing > 0, baud rate ≤ spacing): `automatic_nch` channels, sorted,
+non-overlapping, returned as generated -/
+theorem grid_valid (fmin fmax spacing baud : Int) (hs : 0 < spacing) (hb : baud ≤ spacing) :
+    mkSpectrum (gridChans fmin fmax spacing baud) = .ok (gridChans fmin fmax spacing baud) ∧
+    (gridChans fmin fmax spacing baud).length = automaticNch fmin fmax spacing :=
+  grid_valid' fmin fmax spacing baud hs hb
+
+/-- hence `create_input_spectral_information` succeeds on every sensible request (`f_min ≤ f_max`) -/
+theorem gridSpectrum_ok (fmin fmax spacing baud : Int) (hs : 0 < spacing) (hb : baud ≤ spacing) (hf : fmin ≤ fmax) :
+    gridSpectrum fmin fmax spacing baud = .ok (gridChans fmin fmax spacing baud) := by
+  have : ¬ (fmax - fmin) / spacing < 0 := by
+    have := Int.ediv_nonneg (show 0 ≤ fmax - fmin by omega) (le_of_lt hs)
+    omega
+  simp only [gridSpectrum, this, if_false]
+  exact (grid_valid' fmin fmax spacing baud hs hb).1
+
+/-- its centre frequencies lie in `(f_min, f_max]` -/
+theorem grid_inside (fmin fmax spacing baud : Int) (hs : 0 < spacing) (c : Ch)
+    (hc : c ∈ gridChans fmin fmax spacing baud) : fmin < c.f ∧ c.f ≤ fmax :=
+  grid_inside' fmin fmax spacing baud hs c hc
+
 /-! ### band selection and merge -/
 
 /-- **demux = sub-list**: exactly the in-band channels, order and records preserved (`none` when there is none) -/
